@@ -57,6 +57,7 @@ type StatusRec struct {
 type StatusEv struct {
 	Sending, Receiving string
 	Transferred, Total int
+	CSize              int // compressed size of the proposal the report names
 	Done               bool
 }
 
@@ -64,9 +65,11 @@ func (s *StatusRec) UpdateStatus(st fbb.Status) {
 	ev := StatusEv{Transferred: st.BytesTransferred, Total: st.BytesTotal, Done: st.Done}
 	if st.Sending != nil {
 		ev.Sending = st.Sending.MID()
+		ev.CSize = st.Sending.CompressedSize()
 	}
 	if st.Receiving != nil {
 		ev.Receiving = st.Receiving.MID()
+		ev.CSize = st.Receiving.CompressedSize()
 	}
 	s.mu.Lock()
 	s.list = append(s.list, ev)
